@@ -328,6 +328,8 @@ pub enum SinkMode {
     Plain,
     /// Ask the chooser at every call.
     Choose,
+    /// Ask the chooser at every call whether it fails (no short writes).
+    ChooseFail,
     /// Call number k (write and flush calls counted together) fails with the kind.
     FailAt(u64, io::ErrorKind),
     /// Call number k returns Interrupted once.
@@ -424,6 +426,13 @@ impl FaultSink {
                 }
                 _ => SinkAct::All,
             },
+            SinkMode::ChooseFail => {
+                let ch = self.ch.as_ref().expect("chooser");
+                match ch.dev(if is_flush { "env.flush" } else { "env.write" }, 2) {
+                    0 => SinkAct::All,
+                    _ => SinkAct::Fail(io::ErrorKind::Other),
+                }
+            }
             SinkMode::Choose => {
                 let ch = self.ch.as_ref().expect("chooser");
                 if is_flush {
